@@ -28,6 +28,13 @@ pub fn make_case_opts(src: &mut Src, knobs: &Knobs, fragment: bool, latin1: bool
     o.xml_ids = true;
     o.odd_uris = true;
     o.wide_prefixes = wide_prefixes;
+    if knobs.variant == 5 {
+        // plan bytes-cp1252: text made of the characters windows-1252 keeps in 0x80..0x9F
+        o.alpha = Alpha::Cp1252;
+        o.attr_alpha = Alpha::Cp1252;
+        o.names = Names::Latin;
+        o.odd_uris = false;
+    }
     if latin1 {
         o.alpha = Alpha::Latin1;
         o.attr_alpha = Alpha::Latin1;
@@ -104,7 +111,7 @@ impl Property for C02 {
             knobs: Knobs { max_nodes, variant, ..Default::default() },
         };
         match tier {
-            Tier::Quick => vec![mk("doc", 250_000, 0, 24), mk("fragment", 120_000, 1, 16), mk("bytes", 120_000, 2, 16), mk("doc-wide", 100_000, 3, 24), mk("fragment-wide", 50_000, 4, 16)],
+            Tier::Quick => vec![mk("doc", 250_000, 0, 24), mk("fragment", 120_000, 1, 16), mk("bytes", 120_000, 2, 16), mk("doc-wide", 100_000, 3, 24), mk("fragment-wide", 50_000, 4, 16), mk("bytes-cp1252", 30_000, 5, 12)],
             Tier::Thorough => vec![
                 mk("doc", 2_000_000, 0, 24),
                 mk("doc-big", 100_000, 0, 80),
@@ -112,6 +119,7 @@ impl Property for C02 {
                 mk("bytes", 600_000, 2, 16),
                 mk("doc-wide", 800_000, 3, 24),
                 mk("fragment-wide", 300_000, 4, 16),
+                mk("bytes-cp1252", 300_000, 5, 12),
             ],
         }
     }
@@ -119,6 +127,9 @@ impl Property for C02 {
     fn check(&self, src: &mut Src, ctx: &mut Ctx) -> Verdict {
         // plans doc-wide / fragment-wide: non-ASCII prefixes, local names such as id / lang / space
         // (which are not xml:id / xml:lang / xml:space), empty CDATA sections inside text runs
+        if ctx.knobs.variant == 5 {
+            return self.cp1252(src, ctx);
+        }
         let wide = ctx.knobs.variant >= 3;
         let variant = if wide { ctx.knobs.variant - 3 } else { ctx.knobs.variant };
         let fragment = variant == 1;
@@ -239,3 +250,67 @@ impl Property for C02 {
 
 #[allow(dead_code)]
 fn _u(_: AElem, _: QName) {}
+
+/// windows-1252 byte for a character (None = not encodable)
+fn cp1252_byte(c: char) -> Option<u8> {
+    const HI: &[(char, u8)] = &[
+        ('\u{20ac}', 0x80), ('\u{201a}', 0x82), ('\u{0192}', 0x83), ('\u{201e}', 0x84), ('\u{2026}', 0x85), ('\u{2020}', 0x86),
+        ('\u{2021}', 0x87), ('\u{02c6}', 0x88), ('\u{2030}', 0x89), ('\u{0160}', 0x8a), ('\u{2039}', 0x8b), ('\u{0152}', 0x8c),
+        ('\u{017d}', 0x8e), ('\u{2018}', 0x91), ('\u{2019}', 0x92), ('\u{201c}', 0x93), ('\u{201d}', 0x94), ('\u{2022}', 0x95),
+        ('\u{2013}', 0x96), ('\u{2014}', 0x97), ('\u{02dc}', 0x98), ('\u{2122}', 0x99), ('\u{0161}', 0x9a), ('\u{203a}', 0x9b),
+        ('\u{0153}', 0x9c), ('\u{017e}', 0x9e), ('\u{0178}', 0x9f),
+    ];
+    let u = c as u32;
+    if u < 0x80 || (0xa0..=0xff).contains(&u) {
+        return Some(u as u8);
+    }
+    HI.iter().find(|(ch, _)| *ch == c).map(|(_, b)| *b)
+}
+
+impl C02 {
+    /// plan bytes-cp1252: a document declared windows-1252 whose text is dominated by the characters
+    /// that code page keeps in 0x80..0x9F (decoded, they take three UTF-8 bytes each)
+    fn cp1252(&self, src: &mut Src, ctx: &mut Ctx) -> Verdict {
+        let case = match make_case_opts(src, &ctx.knobs, false, false, false, false) {
+            Ok(c) => c,
+            Err(_) => {
+                ctx.label("unrenderable");
+                return Verdict::Pass;
+            }
+        };
+        let full = format!("<?xml version=\"1.0\" encoding=\"windows-1252\"?>{}", case.rendered.text);
+        let mut bytes = vec![];
+        let mut hi = 0usize;
+        for c in full.chars() {
+            match cp1252_byte(c) {
+                Some(b) => {
+                    if (0x80..0xa0).contains(&b) {
+                        hi += 1;
+                    }
+                    bytes.push(b)
+                }
+                None => {
+                    ctx.label("not_cp1252");
+                    return Verdict::Pass;
+                }
+            }
+        }
+        ctx.fingerprint(&bytes);
+        ctx.rendering(|| format!("{:?}", full));
+        ctx.nontrivial = hi * 2 > bytes.len();
+        if ctx.nontrivial {
+            ctx.label("high_bytes_outnumber_the_rest");
+        }
+        let mut xot = Xot::new();
+        let r: Result<(), String> = (|| {
+            let root = guarded(|| xot.parse_bytes(&bytes))
+                .map_err(|p| format!("parse_bytes(windows-1252) panicked: {}", p))?
+                .map_err(|e| format!("parse_bytes(windows-1252 declared) rejected a well-formed rendering: {}", e))?;
+            check_against(&xot, root, &case.rendered.expected, "parse_bytes(windows-1252 declared)")
+        })();
+        match r {
+            Ok(()) => Verdict::Pass,
+            Err(e) => Verdict::Fail(e),
+        }
+    }
+}
